@@ -411,6 +411,19 @@ impl C05 {
     }
 }
 
+/// The validators' verdict on a stored complex must not depend on the configured validation
+/// policy: the corrupted copy gets one of the policies that every guarantee accepts (`Never` is
+/// left out - the setter refuses it for PL guarantees on an invalid complex, see C19-F1).
+fn set_policy_variant<K: SimKernel<D>, const D: usize>(dt: &mut Dt<K, D>, rng: &mut Rng) {
+    use delaunay::core::triangulation::ValidationPolicy;
+    let p = match rng.below(4) {
+        0 | 1 => return,
+        2 => ValidationPolicy::Always,
+        _ => ValidationPolicy::DebugOnly,
+    };
+    let _ = std::panic::catch_unwind(std::panic::AssertUnwindSafe(|| dt.set_validation_policy(p)));
+}
+
 impl<K: SimKernel<D>, const D: usize> Monitor<K, D> for C05 {
     fn after(&mut self, ctx: &mut StepCtx<'_, K, D>, _pre: Option<&Snap>, out: &Outcome, post: Option<&Snap>) {
         if matches!(out.kind, OutKind::Unresolved | OutKind::Panic) {
@@ -468,7 +481,8 @@ impl<K: SimKernel<D>, const D: usize> Monitor<K, D> for C05 {
             }
             *ctx.stats.faults_fired.entry(format!("raw:{}", f.class())).or_insert(0) += 1;
             ctx.stats.faults_armed += 1;
-            let dt = Dt::<K, D>::from_tds_with_topology_guarantee(tds, K::default(), tg);
+            let mut dt = Dt::<K, D>::from_tds_with_topology_guarantee(tds, K::default(), tg);
+            set_policy_variant(&mut dt, &mut rng);
             self.judge(ctx, f.class(), &dt, false);
         }
         // every pair on tiny complexes
@@ -490,7 +504,8 @@ impl<K: SimKernel<D>, const D: usize> Monitor<K, D> for C05 {
                     }
                     pairs += 1;
                     ctx.stats.faults_armed += 2;
-                    let dt = Dt::<K, D>::from_tds_with_topology_guarantee(tds, K::default(), tg);
+                    let mut dt = Dt::<K, D>::from_tds_with_topology_guarantee(tds, K::default(), tg);
+                    set_policy_variant(&mut dt, &mut rng);
                     self.judge(ctx, &format!("{}+{}", a.class(), b.class()), &dt, false);
                 }
             }
